@@ -337,6 +337,14 @@ impl Cartesian<'_> {
                 started.elapsed()
             );
         }
+        // The transitions above were only checked for continuity. Check now that
+        // no waypoint of the stroke collides.
+        if trace
+            .par_iter()
+            .any(|waypoint| self.robot.collides(&waypoint.joints))
+        {
+            return Err("Collision on the Cartesian stroke".into());
+        }
         if stop.load(Ordering::Relaxed) {
             return Err("Stopped".into());
         }
